@@ -246,12 +246,31 @@ func calibrateGo(c *Ctx, b *mgBatch, tag string) {
 		fmt.Fprintf(&main, "\t\"cal/p%d\"\n", i)
 		ents = append(ents, ent{p, behs})
 	}
-	main.WriteString(")\n\nfunc main() {\n")
+	// (one function per 400 programs: a single function with tens of thousands of statements is more than the compiler takes)
+	main.WriteString(")\n\n")
+	nfn, inFn := 0, 0
 	for i, p := range b.Progs {
 		if len(b.Behs[p.ID]) == 0 {
 			continue
 		}
+		if inFn == 0 {
+			fmt.Fprintf(&main, "func run%d() {\n", nfn)
+		}
 		fmt.Fprintf(&main, "\tfmt.Println(\"##### %d\")\n\tp%d.RunAll()\n", i, i)
+		inFn++
+		if inFn == 400 {
+			main.WriteString("}\n\n")
+			inFn = 0
+			nfn++
+		}
+	}
+	if inFn > 0 {
+		main.WriteString("}\n\n")
+		nfn++
+	}
+	main.WriteString("func main() {\n")
+	for k := 0; k < nfn; k++ {
+		fmt.Fprintf(&main, "\trun%d()\n", k)
 	}
 	main.WriteString("}\n")
 	must(os.WriteFile(filepath.Join(dir, "main.go"), []byte(main.String()), 0o644))
